@@ -46,7 +46,10 @@ def one(job):
     switches = sum(1 for a, b in zip(mx.owners, mx.owners[1:]) if a != b)
     seen = 0
     for k, proto, cip, cport, sip in conn_ids(mx):
-        solo = tool.run(mx.capture(only=k), kl)
+        # alone = only this connection's packets AND only its own key-log lines (in the order its endpoint logged them)
+        kind, j = mx.kinds[k]
+        own = (mx.tls[j] if kind == "tls" else mx.quic[j])["keylog"]
+        solo = tool.run(mx.capture(only=k), "\n".join(own) + "\n")
         if solo.crashed:
             fails.append((f"solo-run:{k}", solo.signature()))
             continue
@@ -69,6 +72,12 @@ def one(job):
             got = (cv[0]["c2s"], cv[0]["s2c"]) if cv else (b"", b"")
             if got != (c["truth"][0], c["truth"][1]):
                 fails.append(("truth", f"stream-mismatch for {c['script'].v}"))
+        for q in mx.quic:
+            conn = q["conn"]
+            rows = e2e.flow_packets(merged, conn.cip, conn.cport, conn.sip, 17)
+            got = [(row[0], row[3] == conn.sip, row[10]) for row in rows if row[10]]
+            if got != [(t, bool(d), b) for t, d, b in q["expect"]]:
+                fails.append(("truth", f"quic-datagram-mismatch suite {q['features']['suite']:04X}: {len(got)} exported, {len(q['expect'])} sent"))
     blob["conns"] = [(k, proto, cip.hex(), cport, sip.hex()) for k, proto, cip, cport, sip in conn_ids(mx)]
     blob["owners"] = mx.owners
     return fails, mx.describe(), blob, switches
@@ -76,12 +85,16 @@ def one(job):
 
 def explore(ctx, scale=1):
     rng = ctx.rng
-    n = ctx.n(24, 600) * scale
+    n = ctx.n(30, 600) * scale
     jobs = []
     for i in range(n):
-        pattern = ["random", "same-hosts", "same-cport", "same-server"][i % 4]
+        pattern = ["random", "same-hosts", "same-cport", "same-server", "mirrored"][i % 5]
         ntls = rng.randrange(1, 5)
         nquic = rng.randrange(0, 3) if pattern == "random" or rng.random() < 0.6 else 0
+        if pattern == "mirrored":
+            ntls, nquic = (rng.randrange(2, 4), rng.randrange(0, 2)) if i % 10 == 4 else (rng.randrange(0, 2), rng.randrange(2, 4))
+        if i % 7 == 6:
+            nquic = max(nquic, 2)          # ≥ 2 QUIC connections: their key-log lines are interleaved by the shuffle
         if pattern == "same-server" and i % 8 == 3:
             ntls, nquic = rng.randrange(0, 2), rng.randrange(2, 4)
         if ntls + nquic < 2:
@@ -110,7 +123,7 @@ def explore(ctx, scale=1):
 def run(ctx):
     ctx.rule = ("captures with 2–6 connections (TLS of random version/suite and QUIC v1) + unrelated TCP/UDP/non-IP frames, "
                 "merged by a random order-preserving interleaving, combined key log shuffled; endpoint patterns: random, "
-                "same two hosts with different client ports, same client ip:port towards different servers, different client hosts with the same client port towards one server (these patterns apply to TLS and QUIC connections alike); IPv4/IPv6. "
+                "same two hosts with different client ports, same client ip:port towards different servers, two connections mirroring each other between the same two hosts (A:p→B:443 and B:p→A:443), different client hosts with the same client port towards one server (these patterns apply to TLS and QUIC connections alike); IPv4/IPv6. "
                 "For every connection the merged export is compared with the export of that connection alone and with the "
                 "sender's ground truth. non-trivial iff the merge switches between connections at least twice.")
     ctx.assumptions = ["QUIC connection IDs are globally unique random values (RFC 9000 §5.1); connections have distinct "
